@@ -1153,7 +1153,7 @@ pub fn k_open(st: &mut State, proc: usize, req: &Req) -> Result<(i32, Out), Errn
         // open(2) with O_CREAT and a trailing slash
         return Err(libc::EISDIR);
     }
-    let r = st.fs.resolve(&req.raw)?;
+    let r = if flags & O_EXCL != 0 && flags & O_CREATE != 0 { st.fs.resolve(&req.raw)? } else { st.fs.resolve_follow(&req.raw)? };
     let mut created = false;
     let ino = match r.ino {
         Some(i) => {
@@ -1169,8 +1169,12 @@ pub fn k_open(st: &mut State, proc: usize, req: &Req) -> Result<(i32, Out), Errn
             if flags & O_CREATE == 0 {
                 return Err(libc::ENOENT);
             }
+            if r.must_be_dir {
+                // creating through a link whose target ends in a slash
+                return Err(libc::EISDIR);
+            }
             created = true;
-            st.fs.create_file(&req.raw, mode)?
+            st.fs.create_file(&r.canon, mode)?
         }
     };
     let is_dir = st.fs.inode(ino).is_dir();
@@ -1270,7 +1274,8 @@ pub fn k_fsync(st: &mut State, proc: usize, req: &Req) -> Result<((), Out), Errn
 }
 
 pub fn k_stat(st: &mut State, _proc: usize, req: &Req) -> Result<(Stat, Out), Errno> {
-    let r = st.fs.resolve(&req.raw)?;
+    // req.arg == 1: lstat / fstatat(AT_SYMLINK_NOFOLLOW)
+    let r = if req.arg == 1 { st.fs.resolve(&req.raw)? } else { st.fs.resolve_follow(&req.raw)? };
     let ino = r.ino.ok_or(libc::ENOENT)?;
     if r.must_be_dir && !st.fs.inode(ino).is_dir() {
         return Err(libc::ENOTDIR);
@@ -1284,7 +1289,7 @@ pub fn k_fstat(st: &mut State, proc: usize, req: &Req) -> Result<(Stat, Out), Er
 }
 
 pub fn k_chmod(st: &mut State, _proc: usize, req: &Req) -> Result<((), Out), Errno> {
-    let r = st.fs.resolve(&req.raw)?;
+    let r = st.fs.resolve_follow(&req.raw)?;
     let ino = r.ino.ok_or(libc::ENOENT)?;
     if r.must_be_dir && !st.fs.inode(ino).is_dir() {
         return Err(libc::ENOTDIR);
@@ -1300,7 +1305,7 @@ pub fn k_fchmod(st: &mut State, proc: usize, req: &Req) -> Result<((), Out), Err
 }
 
 pub fn k_utimens(st: &mut State, _proc: usize, req: &Req) -> Result<((), Out), Errno> {
-    let r = st.fs.resolve(&req.raw)?;
+    let r = st.fs.resolve_follow(&req.raw)?;
     let ino = r.ino.ok_or(libc::ENOENT)?;
     if r.must_be_dir && !st.fs.inode(ino).is_dir() {
         return Err(libc::ENOTDIR);
@@ -1349,7 +1354,7 @@ pub fn k_mkdir(st: &mut State, proc: usize, req: &Req) -> Result<((), Out), Errn
 }
 
 pub fn k_opendir(st: &mut State, proc: usize, req: &Req) -> Result<(i32, Out), Errno> {
-    let r = st.fs.resolve(&req.raw)?;
+    let r = st.fs.resolve_follow(&req.raw)?;
     let ino = r.ino.ok_or(libc::ENOENT)?;
     if !st.fs.inode(ino).is_dir() {
         return Err(libc::ENOTDIR);
